@@ -268,6 +268,8 @@ def check(s):
              f"flat_size == {want}", s.loc(cls, "flat_size"), key="flat-size")
         s.eq("C14.8", f"{cls}.flatten_sample", nz, pf.ret, s.ref(b, "jnp.asarray(sample, dtype=float).ravel()", {"sample": ("param", "sample")}),
              "flatten_sample == ravel of the sample as float (one number per element)", s.loc(cls, "flatten_sample"), key="flatten-ravel")
+    # ---------------------------------------------------------------- C14.11 foreign inputs are rejected, not raised on
+    check_foreign_inputs(s)
     # ---------------------------------------------------------------- C14.9 conversions
     check_conversions(s)
     from .util import fields_initialised
@@ -307,6 +309,53 @@ s2 = jnp.where(~ba & ~bb, jr.normal(K, self.shape), s1)
 s3 = jnp.where(~bb & ba, self.high - jr.exponential(K, self.shape), s2)
 s4 = jnp.where(bb & ~ba, self.low + jr.exponential(K, self.shape), s3)
 """
+
+
+# what jax.numpy.asarray raises for values that are not array-likes of the default width (trusted fact about the library, observed for:
+# a str / object / dict -> TypeError; None, a ragged list -> ValueError; a Python int beyond the default integer width -> OverflowError)
+ASARRAY_RAISES = {"TypeError": {"TypeError", "Exception", "BaseException"},
+                  "ValueError": {"ValueError", "Exception", "BaseException"},
+                  "OverflowError": {"OverflowError", "ArithmeticError", "Exception", "BaseException"}}
+
+
+def check_foreign_inputs(s, rule="C14.11"):
+    """`contains` answers False for foreign values instead of raising: every kind converts its raw argument through try_cast before it
+    looks at it, and try_cast turns each exception class jnp.asarray raises for a non-array-like (TypeError, ValueError, OverflowError)
+    into "not castable" (None), which every contains maps to False (C14.3)."""
+    import ast as _ast
+    m, fn = s.function("lerax.space.utils", "try_cast")
+    loc = s.prog.loc(m, fn)
+    tries = [n for n in _ast.walk(fn) if isinstance(n, _ast.Try)]
+    covered, swallow_ok = set(), True
+    for t in tries:
+        guarded = any(isinstance(c, _ast.Call) and _ast.unparse(c.func).endswith("asarray") for b_ in t.body for c in _ast.walk(b_))
+        if not guarded:
+            continue
+        for h in t.handlers:
+            names = {"BaseException"} if h.type is None else {_ast.unparse(e).split(".")[-1] for e in (h.type.elts if isinstance(h.type, _ast.Tuple) else [h.type])}
+            returns_none = any(isinstance(r, _ast.Return) and (r.value is None or (isinstance(r.value, _ast.Constant) and r.value.value is None)) for r in _ast.walk(h))
+            reraises = any(isinstance(r, _ast.Raise) for r in _ast.walk(h))
+            if returns_none and not reraises:
+                covered |= names
+            else:
+                swallow_ok = swallow_ok and not (names & {"TypeError", "ValueError", "OverflowError"})
+    for exc, sup in ASARRAY_RAISES.items():
+        s.ob(rule, f"try_cast[{exc}]", bool(covered & sup), f"a value jnp.asarray rejects with {exc} is reported as not castable (None), not raised", loc, key=f"foreign-{exc}",
+             detail=f"handled: {sorted(covered)}", necessary_for="foreign types and too-large indices are rejected: contains(x) answers with a scalar boolean")
+    self_ = ("param", "self")
+    for cls in KINDS:
+        ci, dc, fn_c = s.method(cls, "contains")
+        if cls in ("Dict", "Tuple"):
+            continue  # containers test their argument's type and delegate component-wise
+        # the raw argument is only ever handed to try_cast
+        raw_uses = [n for n in _ast.walk(fn_c) if isinstance(n, _ast.Name) and n.id == "x" and isinstance(n.ctx, _ast.Load)]
+        first = next((st for st in fn_c.body if not (isinstance(st, _ast.Expr) and isinstance(st.value, _ast.Constant))), None)
+        ok = isinstance(first, _ast.Assign) and len(first.targets) == 1 and isinstance(first.targets[0], _ast.Name) and first.targets[0].id == "x" \
+            and isinstance(first.value, _ast.Call) and _ast.unparse(first.value.func).split(".")[-1] == "try_cast" and len(first.value.args) == 1 \
+            and isinstance(first.value.args[0], _ast.Name) and first.value.args[0].id == "x"
+        s.ob(rule, f"{cls}.contains", ok and bool(raw_uses), "the first thing contains does with its argument is x = try_cast(x)", s.loc(cls, "contains"), key="cast-first",
+             detail=_ast.unparse(first)[:80] if first is not None else "", necessary_for="foreign types are rejected")
+    s.floor(rule, 7)
 
 
 def pairing_terms(cls, comp):
